@@ -267,9 +267,6 @@ CaseResult run_seg(const RunCtx &ctx, TapeReader &t, unsigned size_hint) {
     if (layer == 0) {
         size_t y = t.chance(1, 3) ? (size_t) t.loguniform(38) : t.below(3);
         unsigned jump_bits = (unsigned) t.below(20);
-        // KNOWN FINDING KF-1 (excluded by construction): for double keys the builder's long double intersection loses about
-        // slope*|x|*2^-64 ranks; rank jumps between adjacent lattice keys (|x|/dx up to 2^50) are capped at 512 so that the loss stays < 1/4.
-        if (is_fp && sizeof(K) == 8 && jump_bits > 9) jump_bits = 9, meta.excluded_known = true;
         SplitMix pr(t.bits(64));
         unsigned jump_every = 1 + (unsigned) t.below(64);
         for (size_t i = 0; i < n; ++i) {
